@@ -5,7 +5,7 @@
 //!   DP <addr> <baud 0..10> <slot_bits> <max_retry> <min_tsdr> <wd_ms|-> <bufsize> <A|V><nslots> <autotake 0|1> <t0>
 //!   P <slot|-|L> <addr> <ident> <sync><freeze><failsafe> <groups> <max_tsdr> <prm hex|-|N> <cfg hex|-|N> <in> <out> <diagbuf>
 //!   S <addr> <ident> <cfg hex|-> <in> <out>                      (slave k belongs to peripheral k)
-//!   ops: X0 X1 D Q L M:<reply> J:<reply> W:<reply> T<dt> RD<k> WQ<k>:<hex> OP CLR STP TK ADD<k> ADDF<k> PC<k>
+//!   ops: X0 X1 D Q L M:<reply> J:<reply> W:<reply> T<dt> RD<k> WQ<k>:<hex> RA<k>:<addr> OP CLR STP TK ADD<k> ADDF<k> PC<k>
 //!        SF<k>:<silent>:<ready_delay>:<stat_diag>:<diag_pending>:<force1>:<force2>:<ext hex>:<ident> CLEAN
 //!   <reply> = sc | dx:<status>:<pdu> | dg:<dsap|->:<ssap|->:<status>:<pdu> | rq:<pdu> | raw:<hex>
 //!   <pdu>   = <hex|-> | @<delta>:<seed>    (length of the addressed peripheral's input image + delta)
@@ -449,6 +449,8 @@ struct Run<'a> {
     last_op: String,
     out: Arc<Mutex<String>>,
     first: bool,
+    /// current station address of configured peripheral k (changed by reset_address)
+    cur_addr: Vec<u8>,
 }
 
 impl<'a> Run<'a> {
@@ -574,7 +576,7 @@ impl<'a> Run<'a> {
     }
 
     fn in_len_of(&self, da: u8) -> usize {
-        self.conf.periphs.iter().find(|p| p.addr == da).map(|p| p.in_len).unwrap_or(0)
+        self.cur_addr.iter().position(|a| *a == da).map(|k| self.conf.periphs[k].in_len).unwrap_or(0)
     }
 
     fn op(&mut self, op: &str) -> Result<(), String> {
@@ -683,6 +685,27 @@ impl<'a> Run<'a> {
                 self.begin(&format!("RD {}", k));
                 self.master.get_mut(h).request_diagnostics();
                 self.finish(None);
+            }
+            return Ok(());
+        }
+        if let Some(r) = op.strip_prefix("RA") {
+            // get_mut(h).reset_address(addr): at any point, also while a reply is outstanding
+            let (ks, a) = r.split_once(':').ok_or("RA")?;
+            let k: usize = ks.parse().map_err(|_| "RA")?;
+            let a: u8 = a.parse().map_err(|_| "RA")?;
+            if let Some(Some(h)) = self.handles.get(k).copied() {
+                self.begin(&format!("RA {} {}", k, a));
+                let m = &mut self.master;
+                match guarded(|| m.get_mut(h).reset_address(a)) {
+                    Ok(()) => {
+                        self.cur_addr[k] = a;
+                        self.finish(None);
+                    }
+                    Err(loc) => {
+                        self.emit(&format!(" PANIC {}", loc));
+                        return Err(loc);
+                    }
+                }
             }
             return Ok(());
         }
@@ -829,6 +852,7 @@ fn run_inner(conf: &Conf, out: Arc<Mutex<String>>) {
         last_op: "?".to_string(),
         out,
         first: true,
+        cur_addr: conf.periphs.iter().map(|p| p.addr).collect(),
     };
     run.begin(&format!("INIT {} ", wd));
     // handles of pre-placed peripherals, then add() for the others
@@ -901,6 +925,7 @@ struct GenCfg {
     clean_tail: bool,
     steps: usize,
     inject: bool,
+    resets: bool,
 }
 
 fn gen_reply_spec(rng: &mut Rng) -> String {
@@ -1058,16 +1083,30 @@ fn gen_case(rng: &mut Rng, g: &GenCfg) -> String {
         let k = rng.below(nper as u64) as usize;
         ops.push(format!("SF{}:1:0:0:0:0:0:-:{}", k, lens[k].0));
     }
-    let user = |rng: &mut Rng, ops: &mut Vec<String>| {
+    let paddrs: Vec<u8> = used[1..].to_vec();
+    let reset_ops = g.resets;
+    let user = |rng: &mut Rng, ops: &mut Vec<String>, pending: bool| {
         if nper == 0 {
             ops.push("TK".into());
             return;
         }
         let k = rng.below(nper as u64) as usize;
-        match rng.below(8) {
+        match rng.below(if reset_ops { 10 } else { 8 }) {
             0 | 1 => ops.push(format!("RD{}", k)),
             2 | 3 | 4 => ops.push(format!("WQ{}:{}", k, hex(&rng.bytes(lens[k].1)))),
             5 => ops.push(format!("ADD{}", k)),
+            8 | 9 => {
+                // reset_address: mostly between bus events, sometimes while the reply is outstanding;
+                // mostly to the current (configured) address, sometimes to a fresh one and back
+                if pending && !rng.chance(1, 4) {
+                    ops.push("TK".into());
+                } else if rng.chance(2, 3) {
+                    ops.push(format!("RA{}:{}", k, paddrs[k]));
+                } else {
+                    let fresh = (60..120u8).find(|x| !used.contains(x)).unwrap_or(119);
+                    ops.push(format!("RA{}:{}", k, fresh + (k as u8)));
+                }
+            }
             _ => ops.push("TK".into()),
         }
     };
@@ -1076,11 +1115,11 @@ fn gen_case(rng: &mut Rng, g: &GenCfg) -> String {
             ops.push(format!("T{}", if rng.chance(1, 6) { rng.below(400_000) } else { rng.below(3000) }));
         }
         if rng.chance(1, 12) {
-            user(rng, &mut ops);
+            user(rng, &mut ops, false);
         }
         ops.push(if rng.chance(1, 40) { "X1".into() } else { "X0".into() });
         if rng.chance(1, 10) {
-            user(rng, &mut ops);
+            user(rng, &mut ops, true);
         }
         let mut r = rng.below(1000);
         if g.inject && rng.chance(1, 3) {
@@ -1122,6 +1161,10 @@ fn gen_case(rng: &mut Rng, g: &GenCfg) -> String {
         ops.push("OP".into());
         for k in 0..nper {
             ops.push(format!("SF{}:0:0:0:0:0:0:-:{}", k, lens[k].0));
+            if g.resets {
+                // back to the configured address: a new bring-up in the fault-free tail
+                ops.push(format!("RA{}:{}", k, paddrs[k]));
+            }
         }
         ops.push("CLEAN".into());
         let tail = 40 + nper * (14 + 3 * max_retry as usize) * 2;
@@ -1146,17 +1189,17 @@ pub fn gen(seed: u64, thorough: bool, out: &mut dyn FnMut(String)) {
     }
     // clean bring-up and data exchange, no faults
     for i in 0..500 * scale {
-        let g = GenCfg { nper: 1 + (i % 4), big: i % 7 == 0, faults: false, clean_tail: false, steps: 20 + rng.below(60) as usize, inject: false };
+        let g = GenCfg { nper: 1 + (i % 4), big: i % 7 == 0, faults: false, clean_tail: false, steps: 20 + rng.below(60) as usize, inject: false, resets: i % 3 == 0 };
         out(gen_case(&mut rng, &g));
     }
     // fault histories
     for i in 0..3000 * scale {
-        let g = GenCfg { nper: i % 5, big: i % 9 == 0, faults: true, clean_tail: false, steps: 20 + rng.below(140) as usize, inject: i % 4 == 0 };
+        let g = GenCfg { nper: i % 5, big: i % 9 == 0, faults: true, clean_tail: false, steps: 20 + rng.below(140) as usize, inject: i % 4 == 0, resets: i % 3 == 1 };
         out(gen_case(&mut rng, &g));
     }
     // fault histories followed by a fault-free tail (recovery, C07)
     for i in 0..1200 * scale {
-        let g = GenCfg { nper: 1 + (i % 4), big: false, faults: true, clean_tail: true, steps: 10 + rng.below(80) as usize, inject: i % 2 == 0 };
+        let g = GenCfg { nper: 1 + (i % 4), big: false, faults: true, clean_tail: true, steps: 10 + rng.below(80) as usize, inject: i % 2 == 0, resets: i % 4 == 1 };
         out(gen_case(&mut rng, &g));
     }
 }
